@@ -441,6 +441,9 @@ func run(c Case) *h.Result {
 		m.Run(pre)
 		m.Trace = nil
 		want := m.Run(forms)
+		if m.Big {
+			return "" // integers beyond the reference evaluator's range: nothing to compare with
+		}
 		ev.MustEval(scope, setup.String())
 		ev.ResetTrace()
 		// the generated programs terminate (the reference has just run this one); a program that blocks - on a mutex an
